@@ -560,10 +560,9 @@ fn wrap_check(c: &WrapCase, rec: &mut Rec) -> CaseResult {
 
 #[derive(Clone, Debug, Serialize, Deserialize)]
 struct SwapCase {
-    /// position i of the external tuple holds internal axis perm[i] ...
-    perm: [u8; 4],
-    /// ... with orientation sign[i]
-    neg: [bool; 4],
+    /// the `order` argument of axisswap as written: 0..=4 indices, a signed permutation of the
+    /// first k axes (the remaining axes stay in place)
+    order: Vec<i32>,
     /// angular unit suffix of the descriptor: 0 none, 1 `_deg`, 2 `_gon`
     unit: u8,
     /// 0 `adapt from=D`, 1 `adapt to=D`, 2 `adapt inv from=D`, 3 `adapt inv to=D`
@@ -572,15 +571,32 @@ struct SwapCase {
     probes: Vec<P4>,
 }
 
-fn nth_perm(k: usize) -> [u8; 4] {
-    let mut items = vec![0u8, 1, 2, 3];
-    let mut out = [0u8; 4];
-    let mut k = k;
-    for i in 0..4 {
-        let f = [6, 2, 1, 1][i];
-        let idx = k / f;
-        k %= f;
-        out[i] = items.remove(idx);
+/// All signed partial permutations: orders of k = 1, 2, 3, 4 indices over 1..=k with any signs
+/// (2 + 8 + 48 + 384 = 442), preceded by the empty order (axisswap without `order`).
+fn all_orders() -> Vec<Vec<i32>> {
+    fn perms(items: &[i32]) -> Vec<Vec<i32>> {
+        if items.len() <= 1 {
+            return vec![items.to_vec()];
+        }
+        let mut out = vec![];
+        for i in 0..items.len() {
+            let mut rest = items.to_vec();
+            let head = rest.remove(i);
+            for mut p in perms(&rest) {
+                p.insert(0, head);
+                out.push(p);
+            }
+        }
+        out
+    }
+    let mut out = vec![vec![]];
+    for k in 1..=4usize {
+        let items: Vec<i32> = (1..=k as i32).collect();
+        for p in perms(&items) {
+            for m in 0..(1usize << k) {
+                out.push(p.iter().enumerate().map(|(i, v)| if m & (1 << i) != 0 { -v } else { *v }).collect());
+            }
+        }
     }
     out
 }
@@ -598,20 +614,39 @@ fn swap_probes(i: usize) -> Vec<P4> {
 }
 
 fn swap_check(c: &SwapCase, rec: &mut Rec) -> CaseResult {
-    let letters_pos = ['e', 'n', 'u', 'f'];
-    let letters_neg = ['w', 's', 'd', 'p'];
-    let mut desc: String = (0..4).map(|i| if c.neg[i] { letters_neg[c.perm[i] as usize] } else { letters_pos[c.perm[i] as usize] }).collect();
-    desc.push_str(["", "_deg", "_gon"][c.unit as usize % 3]);
+    // Complete the partial order to four axes (documented: "postfix nonconsequential axis indices
+    // may be left out") ...
+    let k = c.order.len();
+    let mut order = [1i32, 2, 3, 4];
+    let mut seen = [false; 4];
+    for (j, &o) in c.order.iter().enumerate() {
+        let a = o.unsigned_abs() as usize;
+        vensure!(k <= 4 && a >= 1 && a <= k && !seen[a - 1], "harness-bad-swap-case", "order {:?} is not a signed permutation of 1..={k}", c.order);
+        seen[a - 1] = true;
+        order[j] = o;
+    }
+    // ... and turn it into the adapt descriptor of the same mapping.
     // Documented meaning of a descriptor D: external position i holds the internal axis perm[i],
     // reversed if neg[i], the horizontal axes (e/n/w/s) in the stated angular unit.
     // `from=D`: internal[perm[i]] = s_i * ext[i] (then unit -> rad), i.e. the axisswap order o with
     // o[perm[i]] = s_i * (i+1) followed by unitconvert; `to=D` is the inverse mapping;
     // `adapt inv from=D` == `adapt to=D`.
-    let mut order = [0i32; 4];
-    for i in 0..4 {
-        order[c.perm[i] as usize] = if c.neg[i] { -(i as i32 + 1) } else { i as i32 + 1 };
+    let mut perm = [0u8; 4];
+    let mut neg = [false; 4];
+    for j in 0..4 {
+        let i = order[j].unsigned_abs() as usize - 1;
+        perm[i] = j as u8;
+        neg[i] = order[j] < 0;
     }
-    let mut sdef = format!("axisswap order={},{},{},{}", order[0], order[1], order[2], order[3]);
+    let letters_pos = ['e', 'n', 'u', 'f'];
+    let letters_neg = ['w', 's', 'd', 'p'];
+    let mut desc: String = (0..4).map(|i| if neg[i] { letters_neg[perm[i] as usize] } else { letters_pos[perm[i] as usize] }).collect();
+    desc.push_str(["", "_deg", "_gon"][c.unit as usize % 3]);
+    let mut sdef = if k == 0 {
+        "axisswap".to_string()
+    } else {
+        format!("axisswap order={}", c.order.iter().map(|o| o.to_string()).collect::<Vec<_>>().join(","))
+    };
     match c.unit % 3 {
         1 => sdef.push_str(" | unitconvert xy_in=deg xy_out=rad"),
         2 => sdef.push_str(" | unitconvert xy_in=grad xy_out=rad"),
@@ -633,7 +668,7 @@ fn swap_check(c: &SwapCase, rec: &mut Rec) -> CaseResult {
         for k in 0..4 {
             // elements carrying a converted angle: internal positions 0, 1 when the output is
             // internal, else the external positions holding a horizontal axis
-            let angular = c.unit % 3 != 0 && if swap_fwd { k < 2 } else { c.perm[k] < 2 };
+            let angular = c.unit % 3 != 0 && if swap_fwd { k < 2 } else { perm[k] < 2 };
             let tol = if angular { 2 } else { 0 };
             let d = if tol == 0 && !bits_eq(a[i][k], s[i][k]) { u64::MAX } else { ulps_nan(a[i][k], s[i][k]) };
             if angular {
@@ -645,9 +680,10 @@ fn swap_check(c: &SwapCase, rec: &mut Rec) -> CaseResult {
         }
     }
     rec.class(&format!("{}{}", ["adapt from", "adapt to", "adapt inv from", "adapt inv to"][c.route as usize % 4], ["", " _deg", " _gon"][c.unit as usize % 3]));
+    rec.class(&format!("order of {k} indices"));
     rec.count("comparisons", input.len() as u64);
-    if c.perm != [0, 1, 2, 3] || c.neg.iter().any(|&b| b) {
-        rec.nontrivial(&(&desc, c.route, c.fwd));
+    if perm != [0, 1, 2, 3] || neg.iter().any(|&b| b) {
+        rec.nontrivial(&(&sdef, &desc, c.route, c.fwd));
     }
     Ok(())
 }
@@ -1171,20 +1207,24 @@ fn main() {
         wrap_strategy,
         wrap_check,
     );
-    run.enumerate(
-        "axisswap-adapt",
-        "all 384 signed permutations of four axes as adapt descriptors x {no unit, _deg, _gon} x {from, to, inv from, inv to} x both directions vs the equivalent 'axisswap order=..' [| unitconvert]; permuted and sign-flipped elements bit-identical, converted angles within 2 ulp, counts equal; non-trivial = not the identity",
-        24 * 16 * 3 * 4 * 2,
-        |i| {
-            let perm = nth_perm(i % 24);
-            let m = (i / 24) % 16;
-            let unit = ((i / 384) % 3) as u8;
-            let route = ((i / 1152) % 4) as u8;
-            let fwd = i / 4608 == 0;
-            SwapCase { perm, neg: [m & 1 != 0, m & 2 != 0, m & 4 != 0, m & 8 != 0], unit, route, fwd, probes: swap_probes(i) }
-        },
-        swap_check,
-    );
+    {
+        let orders = all_orders();
+        let no = orders.len();
+        assert!(no == 443, "expected the empty order + 442 signed partial permutations, got {no}");
+        run.enumerate(
+            "axisswap-adapt",
+            "all 442 signed partial permutations as axisswap orders of 1, 2, 3 and 4 indices (plus axisswap without order) x {no unit, _deg, _gon} x {from, to, inv from, inv to} x both directions: 'axisswap order=..' [| unitconvert] vs adapt with the descriptor of the order completed to four axes (order=-1 <-> wnuf, order=2,1 <-> neuf, ...); permuted and sign-flipped elements bit-identical, converted angles within 2 ulp, counts equal; non-trivial = not the identity",
+            no * 3 * 4 * 2,
+            move |i| {
+                let order = orders[i % no].clone();
+                let unit = ((i / no) % 3) as u8;
+                let route = ((i / (no * 3)) % 4) as u8;
+                let fwd = i / (no * 12) == 0;
+                SwapCase { order, unit, route, fwd, probes: swap_probes(i) }
+            },
+            swap_check,
+        );
+    }
     let n = run.scale(15_000, 250_000);
     run.section(
         "unitconvert-adapt",
